@@ -23,7 +23,10 @@ func c20Pool() []replLine {
 		{"@", true, "lexical"}, {`"unterminated`, true, "lexical"}, {"/* open", true, "lexical"}, {Print("1") + " @", true, "lexical"},
 		{"1 +;", true, "syntax"}, {Print("1")[:len(Print("1"))-1], true, "syntax"}, {")", true, "syntax"}, {"{", true, "syntax"}, {"1 = 2;", true, "syntax"},
 		{"1 / 0;", true, "runtime"}, {"নেই;", true, "runtime"}, {"nil.k;", true, "runtime"}, {BI("len", "5") + ";", true, "runtime"}, {Break(), true, "runtime"}, {Ret("1"), true, "runtime"},
-		{Print("1") + " 1 / 0; " + Print("2"), true, "runtime"}, {B["len"] + " = nil; " + BI("len", "[1]") + ";", true, "runtime"},
+		{Print("1") + " 1 / 0; " + Print("2"), true, "runtime"},
+		// output produced by a statement that then fails belongs to that line's response
+		{"{ " + Print(`"in block"`) + " " + Break() + " }", true, "runtime"}, {If(True(), "{ "+Print("1")+" "+Ret("")+" }"), true, "runtime"}, {While(True(), "{ "+Print(`"in loop"`)+" "+Ret("2")+" }"), true, "runtime"},
+		{"7; " + If(True(), "{ 8; "+Continue()+" }"), true, "runtime"}, {For(Var("i", "0"), "i < 2", "i = i + 1", "{ "+Print("i")+" }") + " " + Print("1 / 0"), true, "runtime"}, {B["len"] + " = nil; " + BI("len", "[1]") + ";", true, "runtime"},
 		{Var("x", "1"), true, "declaration"}, {"x;", false, "dependent"}, {Print("x"), false, "dependent"},
 		{"", true, "empty"}, {"   ", true, "empty"}, {"// comment only", true, "empty"},
 		{Print("1") + " " + Print("2"), true, "print"}, {Var("y", "2") + " " + Print("y * 2"), true, "print"}, {"1; 2;", true, "echo"},
@@ -161,6 +164,9 @@ func c20Judge(c *Ctx, cs *Case) {
 	}
 	for i := 0; i < nLines; i++ {
 		info, known := pool[lines[i]]
+		if !known && cs.X["all_self"] == "1" {
+			info, known = replLine{lines[i], true, "runtime"}, true
+		}
 		if !known || !info.self {
 			c.Count("lines_dependent_or_unknown", 1)
 			continue
@@ -224,6 +230,21 @@ func c20Run(c *Ctx) {
 		}
 	}
 	rec()
+	// every kind of runtime fault as a line of its own (with what it needs declared on the same line),
+	// twice in a session, with self-contained lines after each
+	pre := strings.Join(c06Prelude(), " ")
+	for _, f := range c06Faults() {
+		fl := pre + " " + Print(`"before"`) + " " + Print(f.expr) + " " + Print(`"AFTER"`)
+		if f.stmt != "" {
+			fl = pre + " " + Print(`"before"`) + " " + f.stmt + " " + Print(`"AFTER"`)
+		}
+		if strings.Contains(fl, B["input"]) {
+			continue // the session's stdin is the program text
+		}
+		if c.Mine() {
+			c20Judge(c, &Case{Gen: "runtime-fault-lines", Src: strings.Join([]string{fl, BI("len", "[1, 2, 3]") + ";", fl, Print("1 + 2"), BI("max", "[4, 9]") + ";"}, "\n"), X: map[string]string{"final_newline": "1", "all_self": "1", "fault": f.name}})
+		}
+	}
 	// long sessions: hundreds of lines, dominated by failing lines (state that accumulates
 	// over a session shows only here)
 	rl := c.Rand("long-sessions")
@@ -297,10 +318,10 @@ func c20Run(c *Ctx) {
 func init() {
 	register(&CheckDef{
 		ID:   "C20",
-		Rule: "interactive sessions of the plain binary (stdout and stderr on one pipe, split at the `>> ` prompts): every sequence of <=2 (quick) / <=3 (thorough) lines over a 72-line pool (prints, bare expressions of every value kind, built-in calls, lexical errors, syntax errors, runtime errors incl. a failing multi-statement line and a line that overwrites a built-in name and then fails, a declaration and dependent lines, empty / blank / comment-only lines, multi-statement lines), with and without a final newline; seeded random sessions of 3-40 lines; long lines (4-12 kB: a long string, a 2000-term sum, a long comment, 150 stray characters, long failing lines); long sessions of 120-380 lines dominated by failing lines. Checks: exit status 0; exactly one response per line plus the final prompt; every self-contained line's response equals refborno's REPL-mode expectation (echo of bare expression values included) and is byte-identical to the response the same binary gives to that line alone in a fresh session. Non-trivial = distinct session whose responses were all checked.",
+		Rule: "interactive sessions of the plain binary (stdout and stderr on one pipe, split at the `>> ` prompts): every sequence of <=2 (quick) / <=3 (thorough) lines over a 72-line pool (prints, bare expressions of every value kind, built-in calls, lexical errors, syntax errors, runtime errors incl. a failing multi-statement line and a line that overwrites a built-in name and then fails, a declaration and dependent lines, empty / blank / comment-only lines, multi-statement lines), with and without a final newline; seeded random sessions of 3-40 lines; long lines (4-12 kB: a long string, a 2000-term sum, a long comment, 150 stray characters, long failing lines); long sessions of 120-380 lines dominated by failing lines; every runtime fault of C06's pool as a line of its own, twice, followed by self-contained lines. Checks: exit status 0; exactly one response per line plus the final prompt; every self-contained line's response equals refborno's REPL-mode expectation (echo of bare expression values included) and is byte-identical to the response the same binary gives to that line alone in a fresh session. Non-trivial = distinct session whose responses were all checked.",
 		Assumptions: []string{"the property promises no state carried between lines: lines that depend on earlier lines are only counted", "lines containing the prompt text, ইনপুট/ক্লক lines and lines beyond bufio.Scanner's 64 KiB limit are out of domain"},
 		Run:         c20Run,
 		Judge:       c20Judge,
-		MustCount:   func(c *Ctx) []string { return []string{"responses_checked", "line_kind:echo", "line_kind:lexical", "line_kind:syntax", "line_kind:runtime", "line_kind:empty", "gen:random-sessions", "gen:long-sessions", "line_kind:long", "cli_runs"} },
+		MustCount:   func(c *Ctx) []string { return []string{"responses_checked", "line_kind:echo", "line_kind:lexical", "line_kind:syntax", "line_kind:runtime", "line_kind:empty", "gen:random-sessions", "gen:long-sessions", "gen:runtime-fault-lines", "line_kind:long", "cli_runs"} },
 	})
 }
